@@ -66,62 +66,99 @@ def readExtended (hd sep : Γ) (tape : List Γ) : Res (List Γ) :=
 
 /-! ### the splice loop -/
 
-/-- The `if new_tape[i] == head_symbol:` branch (without the final `i += 1`). -/
+/-- `new_tape[j] == tape_separator_symbol` (may raise `IndexError`). -/
+def pyEqAt (sep : Γ) (tape : List Γ) (j : Int) : Res Bool :=
+  match pyGet? tape j with
+  | some s => .ok (decide (s = sep))
+  | none => .error (.py .indexError)
+
+/-- `new_tape[:i] + blank + new_tape[i:]`. -/
+def pyInsert (tape : List Γ) (i : Int) (xs : List Γ) : List Γ := pyTake tape i ++ xs ++ pyDrop tape i
+
+/-- The direction part of the head branch:
+```
+if direction == "R": i += 1
+elif direction == "L":
+    i -= 1
+    if i == 0 or new_tape[i - 1] == tape_separator_symbol:
+        new_tape = new_tape[:i] + blank + new_tape[i:]; i += 1
+```
+(any other direction: nothing). -/
+def spliceDir (sep blank : Γ) (dir : Dir) (tape : List Γ) (i : Int) : Res (List Γ × Int) :=
+  match dir with
+  | .R => .ok (tape, i + 1)
+  | .L =>
+    if i - 1 = 0 then .ok (pyInsert tape (i - 1) [blank], i - 1 + 1)
+    else
+      match pyEqAt sep tape (i - 1 - 1) with
+      | .error e => .error e
+      | .ok true => .ok (pyInsert tape (i - 1) [blank], i - 1 + 1)
+      | .ok false => .ok (tape, i - 1)
+  | _ => .ok (tape, i)
+
+/-- Re-inserting the head mark:
+```
+if i > 0 and new_tape[i - 1] == tape_separator_symbol:
+    i -= 1; new_tape = new_tape[:i] + blank + head + new_tape[i:]; i += 1
+else:
+    new_tape = new_tape[:i] + head + new_tape[i:]
+``` -/
+def spliceMark (hd sep blank : Γ) (tape : List Γ) (i : Int) : Res (List Γ × Int) :=
+  if i > 0 then
+    match pyEqAt sep tape (i - 1) with
+    | .error e => .error e
+    | .ok true => .ok (pyInsert tape (i - 1) [blank, hd], i - 1 + 1)
+    | .ok false => .ok (pyInsert tape i [hd], i)
+  else .ok (pyInsert tape i [hd], i)
+
+/-- The `if new_tape[i] == head_symbol:` branch (without the final `i += 1`):
+```
+new_tape = new_tape[: i - 1] + new_head + new_tape[i:]
+new_tape = new_tape[:i] + "" + new_tape[i + 1 :]
+```
+then the direction part, then the head mark. -/
 def spliceHead (hd sep blank newHead : Γ) (dir : Dir) (tape : List Γ) (i : Int) :
-    Res (List Γ × Int) := do
-  -- new_tape = new_tape[: i - 1] + new_head + new_tape[i:]
-  let tape := pyTake tape (i - 1) ++ [newHead] ++ pyDrop tape i
-  -- new_tape = new_tape[:i] + "" + new_tape[i + 1 :]
-  let tape := pyTake tape i ++ pyDrop tape (i + 1)
-  let (tape, i) ←
-    (match dir with
-     | .R => pure (tape, i + 1)
-     | .L => do
-        let i := i - 1
-        -- if i == 0 or new_tape[i - 1] == tape_separator_symbol:
-        let atLeft ← (if i = 0 then pure true
-                       else do let s ← pyIdx tape (i - 1); pure (decide (s = sep)))
-        if atLeft then pure (pyTake tape i ++ [blank] ++ pyDrop tape i, i + 1)
-        else pure (tape, i)
-     | _ => pure (tape, i) : Res (List Γ × Int))
-  -- if i > 0 and new_tape[i - 1] == tape_separator_symbol:
-  let atSep ← (if i > 0 then do let s ← pyIdx tape (i - 1); pure (decide (s = sep))
-                else pure false : Res Bool)
-  if atSep then
-    let i := i - 1
-    pure (pyTake tape i ++ [blank, hd] ++ pyDrop tape i, i + 1)
-  else
-    pure (pyTake tape i ++ [hd] ++ pyDrop tape i, i)
+    Res (List Γ × Int) :=
+  let tape1 := pyTake tape (i - 1) ++ [newHead] ++ pyDrop tape i
+  let tape2 := pyTake tape1 i ++ pyDrop tape1 (i + 1)
+  match spliceDir sep blank dir tape2 i with
+  | .error e => .error e
+  | .ok r => spliceMark hd sep blank r.1 r.2
 
 /-- `while executing_changes:` for one move `(new_head, direction)`, from index `i`.
 `.ok none`: fuel exhausted. -/
 def scanMove (hd sep blank newHead : Γ) (dir : Dir) :
     Nat → List Γ → Int → Res (Option (List Γ × Int))
   | 0, _, _ => .ok none
-  | fuel + 1, tape, i => do
-    let s ← pyIdx tape i
-    if s = hd then
-      let r ← spliceHead hd sep blank newHead dir tape i
-      scanMove hd sep blank newHead dir fuel r.1 (r.2 + 1)
-    else if s = sep then
-      pure (some (tape, i + 1))
-    else
-      scanMove hd sep blank newHead dir fuel tape (i + 1)
+  | fuel + 1, tape, i =>
+    match pyGet? tape i with
+    | none => .error (.py .indexError)
+    | some s =>
+      if s = hd then
+        match spliceHead hd sep blank newHead dir tape i with
+        | .error e => .error e
+        | .ok r => scanMove hd sep blank newHead dir fuel r.1 (r.2 + 1)
+      else if s = sep then
+        .ok (some (tape, i + 1))
+      else
+        scanMove hd sep blank newHead dir fuel tape (i + 1)
 
 /-- `for move in moves:` — `i` persists across the moves. -/
 def spliceMoves (hd sep blank : Γ) : List (Γ × Dir) → List Γ → Int → Res (Option (List Γ × Int))
   | [], tape, i => .ok (some (tape, i))
-  | m :: ms, tape, i => do
-    match ← scanMove hd sep blank m.1 m.2 (2 * tape.length + 4) tape i with
-    | none => pure none
-    | some r => spliceMoves hd sep blank ms r.1 r.2
+  | m :: ms, tape, i =>
+    match scanMove hd sep blank m.1 m.2 (2 * tape.length + 4) tape i with
+    | .error e => .error e
+    | .ok none => .ok none
+    | .ok (some r) => spliceMoves hd sep blank ms r.1 r.2
 
 /-- The queue entry appended for one `next_config`: `(next_state, new_tape, i - 1)`. -/
 def spliceAll (hd sep blank : Γ) (tape : List Γ) (t : σ × List (Γ × Dir)) :
-    Res (Option (σ × List Γ × Int)) := do
-  match ← spliceMoves hd sep blank t.2 tape 0 with
-  | none => pure none
-  | some r => pure (some (t.1, r.1, r.2 - 1))
+    Res (Option (σ × List Γ × Int)) :=
+  match spliceMoves hd sep blank t.2 tape 0 with
+  | .error e => .error e
+  | .ok none => .ok none
+  | .ok (some r) => .ok (some (t.1, r.1, r.2 - 1))
 
 /-! ### `read_input_as_ntm` -/
 
